@@ -749,8 +749,13 @@ def execute(sc: dict, ch: Choices, storage_dir: Optional[str], storage_obj=None,
                     keep_mode, sim.gate_mode = sim.gate_mode, 'free'
                 plab = labtech.Lab(storage=None, continue_on_failure=True, max_workers=prelude.get('max_workers'),
                                    notebook=False, context={}, runner_backend=p_inner())
-                plab.run_tasks([TN(ident=900 + i, tag='prelude') for i in range(prelude.get('n', 3))],
-                               disable_progress=True, disable_top=True)
+                try:
+                    plab.run_tasks([TN(ident=900 + i, tag='prelude') for i in range(prelude.get('n', 3))],
+                                   disable_progress=True, disable_top=True)
+                except SimAbort as ab:
+                    out.kind = 'abort'
+                    out.abort = ab.reason
+                    out.abort_detail = 'during the prelude run: ' + ab.detail
                 probe.fail = old_fail
                 if sim is not None:
                     sim.block('prelude-drain', lambda: not any(x.kind == 'worker' and x.alive for x in sim.entities))
@@ -763,6 +768,8 @@ def execute(sc: dict, ch: Choices, storage_dir: Optional[str], storage_obj=None,
             linemon.start(handler)
         rec.in_run = True
         try:
+            if out.kind == 'abort':
+                raise SimAbort(out.abort, out.abort_detail)
             if sc.get('run_task') and len(built.requested) == 1:
                 single = lab.run_task(built.requested[0], bust_cache=bool(sc.get('bust_cache')),
                                       disable_progress=not show, disable_top=not show)
